@@ -15,6 +15,8 @@ CONFIGS_Q = [
     ("3g2b", 3, 2, [("g1", 1), ("g2", 2), ("g3", 1)], 1),
     # growers that are threads of one process (same pid) growing the same batch
     ("2g1b_same_pid", 2, 1, [("g1", 1), ("g2", 1)], 1),
+    # ... and different batches (threads of one process, e.g. Crop.grow(ids, executor=ThreadPoolExecutor()))
+    ("2g2b_same_pid", 2, 2, [("g1", 1), ("g2", 2)], 1),
 ]
 CONFIGS_T = CONFIGS_Q + [
     ("3g3b", 3, 3, [("g1", 1), ("g2", 2), ("g3", 3)], 1),
